@@ -111,10 +111,10 @@ func ruleCSVRows(c *core.Ctx, ruleNames, ruleNums string) {
 						}
 					case v.Op == "call:strconv.FormatFloat" && len(v.Args) == 4:
 						// FormatFloat(x, 'f', N, 64) is the %.Nf rendering
-						if v.Args[1].Key() == "c:102" && intConst(v.Args[2]) >= 0 && intConst(v.Args[2]) < 1<<30 {
+						if v.Args[1].Key() == "c:102" && intConst(v.Args[2]) >= 0 && intConst(v.Args[2]) < 1<<30 && intConst(v.Args[3]) == 64 {
 							fields[fmt.Sprintf("field %d: number FormatFloat 'f' %d", i, intConst(v.Args[2]))] = true
 						} else {
-							badNums = append(badNums, fmt.Sprintf("field %d is %s: not a fixed-precision 'f' rendering", i, v.Key()))
+							badNums = append(badNums, fmt.Sprintf("field %d is %s: not the fixed-precision 'f' rendering of the float64 value (a bit size of 32 rounds through float32 first: large amounts lose their last digits)", i, v.Key()))
 						}
 					default:
 						// a name or number passed through further code
@@ -198,10 +198,11 @@ func ruleCSVDialect(c *core.Ctx, rule string) {
 func init() {
 	register(&Property{
 		ID:    "C13",
-		Rules: []string{"C13-R1", "C13-R2", "C13-R3", "C13-R4", "C13-R5", "C01-R1", "C01-R2", "C01-R5"},
+		Rules: []string{"C13-R1", "C13-R2", "C13-R3", "C13-R4", "C13-R5", "C01-R1", "C01-R2", "C01-R4", "C01-R5", "C02-R5"},
 		Explain: "Decides the mechanisms that make the CSV exports lossless: C13-R1 in package csv the output is written only through encoding/csv.Writer (quoting of commas, quotes and line breaks is the library's); C13-R2 the name fields of each row are the parsed Name/Header values untouched; " +
-			"C13-R3 the separator's only source is the constant ',' and row dates use the constant ISO layout; C13-R4 each amount is fmt.Sprintf(constant %.Nf, value) used as is (Go's %f is correctly rounded); C13-R5 the resolved export collects recipe names and sorts them (element order inside a recipe is C01's).",
-		NotDecided: "that reading the output back yields the same strings (follows from R1+R2 and the library), the number of rows per day, what the precision is",
+			"C13-R3 the separator's only source is the constant ',' and row dates use the constant ISO layout; C13-R4 each amount is fmt.Sprintf(constant %.Nf, value) used as is (Go's %f is correctly rounded); C13-R5 the resolved export collects recipe names and sorts them (element order inside a recipe is C01's); " +
+			"C01-R4 and C02-R5 (shared) one row per (recipe, resolved element) and per (day, distinct food) rests on the two merge-by-name loops keeping one slot per name in first-appearance position.",
+		NotDecided:  "that reading the output back yields the same strings (follows from R1+R2 and the library), the number of rows per day, what the precision is",
 		Assumptions: []string{"encoding/csv quotes fields per RFC 4180", "fmt's %f formatting is correctly rounded"},
 		Run: func(c *core.Ctx) {
 			ruleCSVWriters(c, "C13-R1")
@@ -212,6 +213,12 @@ func init() {
 				analyseResolver(c, r, map[string]bool{"C01-R1": true, "C01-R5": true})
 			}
 			ruleLessByName(c, "C01-R2")
+			if fn := c.P.LookupMethod(core.LibPath, "Elements", "SumMerge"); requireAnchor(c, "C01-R4", "Elements.SumMerge", fn != nil) {
+				ruleMergeByName(c, "C01-R4", fn, true)
+			}
+			if fn := c.P.LookupFunc(core.LibPath, "NewLogNodeFromElements"); requireAnchor(c, "C02-R5", "NewLogNodeFromElements", fn != nil) {
+				ruleMergeByName(c, "C02-R5", fn, false)
+			}
 		},
 	})
 }
